@@ -87,19 +87,16 @@ func (f *StringOptionalField) Levels() ([]uint8, []uint8) {
 
 var stringOptionalStatsTpl = `{{define "stringOptionalStats"}}
 
-const nilOptString = "__#NIL#__"
-
 type stringOptionalStats struct {
 	min    string
 	max    string
-	nils int64
+	set    bool
+	nils   int64
 	maxDef uint8
 }
 
 func newStringOptionalStats(d uint8) *stringOptionalStats {
 	return &stringOptionalStats{
-		min:    nilOptString,
-		max:    nilOptString,
 		maxDef: d,
 	}
 }
@@ -111,16 +108,14 @@ func (s *stringOptionalStats) add(vals []string, defs []uint8) {
 			s.nils++
 		} else {
 			val := vals[i]
-			if s.min == nilOptString {
+			if !s.set {
 				s.min = val
+				s.max = val
+				s.set = true
 			} else {
 				if val < s.min {
 					s.min = val
 				}
-			}
-			if s.max == nilOptString {
-				s.max = val
-			} else {
 				if val > s.max {
 					s.max = val
 				}
@@ -139,14 +134,14 @@ func (s *stringOptionalStats) DistinctCount() *int64 {
 }
 
 func (s *stringOptionalStats) Min() []byte {
-	if s.min == nilOptString {
+	if !s.set {
 		return nil
 	}
 	return []byte(s.min)
 }
 
 func (s *stringOptionalStats) Max() []byte {
-	if s.max == nilOptString {
+	if !s.set {
 		return nil
 	}
 	return []byte(s.max)
